@@ -324,6 +324,22 @@ func genC12(tier string, seed uint64, emit func(string)) {
 		{"\xd9\xa3", []string{"INCR", "n"}, "E"},
 		{"1.5", []string{"INCRBY", "n", "2"}, "E"},
 		{"", []string{"INCR", "n"}, "E"},
+		// the most negative decrement is refused whatever the value (its negation does not exist); sums and differences
+		// that land exactly on a border are computed, one beyond is refused
+		{"-1", []string{"DECRBY", "n", "-9223372036854775808"}, "E"},
+		{"-42", []string{"DECRBY", "n", "-9223372036854775808"}, "E"},
+		{"-9223372036854775808", []string{"DECRBY", "n", "-9223372036854775808"}, "E"},
+		{"7", []string{"DECRBY", "n", "-9223372036854775808"}, "E"},
+		{"-1", []string{"DECRBY", "n", "9223372036854775807"}, ":-9223372036854775808"},
+		{"-2", []string{"DECRBY", "n", "9223372036854775807"}, "E"},
+		{"0", []string{"DECRBY", "n", "9223372036854775807"}, ":-9223372036854775807"},
+		{"5", []string{"INCRBY", "n", "-9223372036854775808"}, ":-9223372036854775803"},
+		{"-5", []string{"INCRBY", "n", "-9223372036854775808"}, "E"},
+		{"0", []string{"INCRBY", "n", "-9223372036854775808"}, ":-9223372036854775808"},
+		{"9223372036854775807", []string{"DECRBY", "n", "-1"}, "E"},
+		{"-9223372036854775808", []string{"INCRBY", "n", "-1"}, "E"},
+		{"-9223372036854775808", []string{"INCRBY", "n", "9223372036854775807"}, ":-1"},
+		{"9223372036854775807", []string{"DECRBY", "n", "9223372036854775807"}, ":0"},
 		{"10", []string{"DECRBY", "n", "3"}, ":7"},
 		{"10", []string{"INCRBY", "n", "-3"}, ":7"},
 	} {
@@ -332,6 +348,12 @@ func genC12(tier string, seed uint64, emit func(string)) {
 			want = hx([]byte(c.want + "\r\n"))
 		}
 		emit(c12Line([][][]byte{bs("SET", "n", c.val), bs(c.cmd...), bs("GET", "n")}, fmt.Sprintf("expect 1 %s", want)))
+		// the same against a real string store behind the framework: a refused command leaves the value as it was
+		var sb []byte
+		for _, argv := range [][][]byte{bs("SET", "n", c.val), bs(c.cmd...), bs("GET", "n"), bs("STRLEN", "n")} {
+			sb = append(sb, requestBytes(argv, nil)...)
+		}
+		emit("sserve | " + hx(sb) + " | " + floatTable(bs("SET", "n", c.val), bs(c.cmd...)))
 	}
 	emit(c12Line([][][]byte{bs("INCR", "fresh"), bs("GET", "fresh")}, "expect 0 "+hx([]byte(":1\r\n"))))
 	// random programs over the derived commands, on top of state built with primitive and derived writes
